@@ -33,6 +33,7 @@ type report struct {
 	selfRuns     int
 	selfMatch    int
 	selfSkipped  int
+	selfSkipWhy  map[string]int
 	selfMismatch []string
 }
 
@@ -142,6 +143,10 @@ func (r *report) selftest(ld *loaded) {
 			reason := ex.runPath(hh, nil)
 			if reason != "" && reason != "panic" && reason != "exit" {
 				r.selfSkipped++
+				if r.selfSkipWhy == nil {
+					r.selfSkipWhy = map[string]int{}
+				}
+				r.selfSkipWhy[reason]++
 				continue
 			}
 			rf := &ReplayFile{Property: r.cfg.Prop, Harness: h.Name, Kind: "concrete", Tier: r.cfg.Tier, Values: ex.replayValues(ex.concreteModel())}
@@ -362,7 +367,7 @@ func (r *report) finish() int {
 		"spurious_counterexamples": r.spurious,
 		"inconclusive_sites":       r.inconclusive,
 		"native_replays":           r.replays,
-		"selftest":                 map[string]any{"concrete_runs_compared": r.selfRuns, "agree": r.selfMatch, "skipped_by_assume": r.selfSkipped, "mismatches": r.selfMismatch},
+		"selftest":                 map[string]any{"concrete_runs_compared": r.selfRuns, "agree": r.selfMatch, "skipped": r.selfSkipped, "skipped_reasons": r.selfSkipWhy, "mismatches": r.selfMismatch},
 		"known_findings_reproduced": keysOf(r.knownHit),
 		"repo_head":                r.head,
 		"workers":                  r.cfg.Workers,
